@@ -483,7 +483,12 @@ func (g *jgen) intTree(d int) *JX {
 }
 
 var c18Strings = []string{"", "a", "Hello", "x y", "say \"hi\"", "\"hello\"", "\"a\" + \"b\"", "\"", "\"\"", "\"dir\\\"", "back\\slash", "tab\there", "line\nbreak", "'single'",
-	"\\n", "\\\"", "%d %s", "(x)", "!(F.B)", "F.S", "{\"const\":1}", "// c", "/* c */", "\x01\x7f", "\r\n", "a\"", "\"b", "semi;", "rule R {", "\a\b\f\v", "\x00z"}
+	"\\n", "\\\"", "%d %s", "(x)", "!(F.B)", "F.S", "{\"const\":1}", "// c", "/* c */", "\x01\x7f", "\r\n", "a\"", "\"b", "semi;", "rule R {", "\a\b\f\v", "\x00z",
+	"(", ")", "((", "))", ")(", ") || (", "a(b", "!(", "&&", "||", "{", "}", "[", "]\"", "(\"", "\")", ";\"", "\\(", "==", "/*", "*/"}
+
+// strings made of the characters a text-level treatment of the translator's own output would trip over (brackets, operators,
+// quotes, comment marks): they are placed where the translator decides about wrapping, negation and separators
+var c18SyntaxStrings = []string{"(", ")", "((", "))", ")(", ") || (", ") && (", "!(", "\"", "\")", "(\"", ";", "/*", "//", "{", "}", ","}
 
 func (g *jgen) strValue() string {
 	if g.p.chance(2, 3) {
@@ -863,6 +868,41 @@ func runC18(seed uint64, tier string, out string) error {
 			WhenTree: &JX{K: "op", Op: "eq", Args: []*JX{{K: "plain", A: aVar(vPath("F", "S"))}, {K: "consts", S: sv}}},
 			Then:     []*JSt{{K: "set", X: vPath("F", "S"), Rhs: &JX{K: "consts", S: sv}}}}
 		scen = append(scen, c18FromTyped("string-constant", t, p.fork()))
+	}
+	// syntax characters inside string constants at every position of a negated / nested and-or tree (first group, last group,
+	// both), and of a call argument list: the GRL text must not depend on what a string constant contains
+	for i, sv := range c18SyntaxStrings {
+		sp := p.fork()
+		gg := &jgen{p: sp}
+		strEq := func(x string) *JX {
+			return &JX{K: "op", Op: pick(sp, []string{"eq", "not"}), Args: []*JX{{K: "plain", A: aVar(vPath("F", "S"))}, {K: "consts", S: x}}}
+		}
+		fb := func() *JX { return gg.asObject(gg.cmp(0)) }
+		for j, pos := range []string{"first", "last", "both", "call"} {
+			g1 := &JX{K: "op", Op: pick(sp, []string{"and", "or"}), Args: []*JX{fb(), fb()}}
+			g2 := &JX{K: "op", Op: pick(sp, []string{"and", "or"}), Args: []*JX{fb(), fb()}}
+			switch pos {
+			case "first":
+				g1.Args[0] = strEq(sv)
+			case "last":
+				g2.Args[1] = strEq(sv)
+			case "both":
+				g1.Args[0], g2.Args[1] = strEq(sv), strEq(pick(sp, c18SyntaxStrings))
+			case "call":
+				call := &JX{K: "call", H: &CHead{Recv: aVar(vName("F")), M: "Concat"}, Args: []*JX{{K: "consts", S: sv}, {K: "plain", A: aVar(vPath("F", "S"))}, {K: "consts", S: pick(sp, c18SyntaxStrings)}}}
+				g1.Args[0] = &JX{K: "op", Op: "eq", Args: []*JX{call, {K: "consts", S: sv + "a" + sv}}}
+			}
+			var tree *JX = &JX{K: "op", Op: pick(sp, []string{"and", "or"}), Args: []*JX{g1, g2}}
+			switch sp.intn(3) {
+			case 0:
+				tree = &JX{K: "op", Op: "not", Args: []*JX{tree}}
+			case 1:
+				tree = &JX{K: "op", Op: pick(sp, []string{"and", "or"}), Args: []*JX{{K: "op", Op: "not", Args: []*JX{tree}}, fb()}}
+			}
+			t := &TRule{Name: fmt.Sprintf("Y%d_%d", i, j), Desc: "syntax characters in a string constant (" + pos + ")", Sal: 1, WhenTree: tree,
+				Then: []*JSt{{K: "set", X: vPath("F", "S"), Rhs: &JX{K: "consts", S: sv}}}}
+			scen = append(scen, c18FromTyped("syntax-in-string", t, sp.fork()))
+		}
 	}
 	// nesting shapes: an operator over an operand whose own first and last operands are nested
 	for i := 0; i < n/6; i++ {
